@@ -222,11 +222,19 @@ def run (toks : List String) : String :=
     if obs.head? == some "PANIC" then "spec-fail C06-panic " ++ " ".intercalate (obs.take 12) else
     match splitBar scen with
     | head :: ops =>
-      let os := splitBar obs
+      let os0 := splitBar obs
+      -- the last item is the descriptor-leak report (C09)
+      match os0.getLast? with
+      | some [l] =>
+      if !l.startsWith "L=" then "spec-fail observation-shape" else
+      if l != "L=-" then "spec-fail C09-descriptor-leak " ++ l else
+      let os := os0.dropLast
+      if os.any (fun o => (kvOf o "lc").getD "0" != "0") then "spec-fail C09-lent-descriptor-closed" else
       if ops.length != os.length then "spec-fail observation-shape" else
       let srvMode := (kvOf head "mode").getD "srv" == "srv"
       let j := (ops.zip os).foldl (stepJ srvMode) { n := { maxQ := pn ((kvOf head "mq").getD "2") } }
       (match j.err with | some e => "spec-fail " ++ e | none => "spec-ok")
+      | _ => "spec-fail observation-shape"
     | [] => "bad-line"
   | _ => "bad-line"
 
